@@ -22,12 +22,12 @@ def apply(tree, patch):
         rc, o = run("git -C %s apply %s %s" % (tree, flags, patch))
         if rc == 0:
             return flags or "plain", o
-        run("git -C %s checkout -- . ; git -C %s reset -q" % (tree, tree))
+        run("git -C %s reset -q --hard HEAD" % tree)
     return None, o
 
 
 def restore(tree):
-    run("git -C %s checkout -- . ; git -C %s reset -q; git -C %s clean -fdq -e target -e _out" % (tree, tree, tree))
+    run("git -C %s reset -q --hard HEAD; git -C %s clean -fdq -e target -e _out" % (tree, tree))
 
 
 head = run("git -C /repo rev-parse --short HEAD")[1].strip()
